@@ -130,6 +130,11 @@ type world struct {
 	maxPending  int64
 	viaResolver int64
 	kinds       map[string]bool // hostile kinds that actually happened
+
+	// gate, when set, is applied by the scheduler to the requested hashes of every round BEFORE the per-hash
+	// drop / delay rules: the hashes it filters out are ignored this round (the syncers request again at their
+	// next poll). Used by the phases that need a targeted schedule (hold a trie back, never serve a trie).
+	gate func(reqs []string) []string
 }
 
 func (w *world) kind(k string) {
@@ -286,6 +291,9 @@ func (w *world) runScheduler(rng *vk.Rand, net *simNet, p schedParams, stop <-ch
 		}
 		if int64(len(reqs)) > atomic.LoadInt64(&w.maxPending) {
 			atomic.StoreInt64(&w.maxPending, int64(len(reqs)))
+		}
+		if w.gate != nil {
+			reqs = w.gate(reqs)
 		}
 		var batchOut []delivery
 		var toAnswer []string
